@@ -6,11 +6,14 @@ import (
 	"bytes"
 	"context"
 	"errors"
+	"fmt"
+	"io"
 	"os"
 	"os/exec"
 	"path/filepath"
 	"syscall"
 	"time"
+	"unsafe"
 )
 
 // Bin returns the path of a command built by the driver (see evid.Commands).
@@ -27,6 +30,7 @@ type Result struct {
 	Stdout, Stderr []byte
 	Exit           int  // exit status (-1 if killed)
 	TimedOut       bool // killed by the per-process timer: inconclusive, never a verdict by itself
+	NoTTY          bool // Opt.StderrTTY was asked for and no pseudo-terminal could be opened (the process was not run)
 	Err            error
 	Wall           time.Duration
 }
@@ -37,6 +41,62 @@ type Opt struct {
 	Env     []string // appended to a clean environment (PATH, HOME, TMPDIR only)
 	Dir     string
 	Timeout time.Duration // default 60 s
+	// StderrTTY: the standard error of the child is a pseudo-terminal (what an interactive
+	// user has: progress bars are drawn); Result.NoTTY is set when none could be opened.
+	StderrTTY bool
+	// StdinPieces > 1: the standard input is delivered in that many pieces, StdinPause apart
+	// (a slow producer at the other end of the pipe).
+	StdinPieces int
+	StdinPause  time.Duration
+}
+
+// slowReader hands its data out in pieces separated by pauses.
+type slowReader struct {
+	data   []byte
+	pieces int
+	pause  time.Duration
+	pos    int
+	piece  int
+}
+
+func (r *slowReader) Read(p []byte) (int, error) {
+	if r.pos >= len(r.data) {
+		return 0, io.EOF
+	}
+	size := (len(r.data) + r.pieces - 1) / r.pieces
+	end := min(len(r.data), (r.piece+1)*size)
+	if r.pos >= end {
+		r.piece++
+		time.Sleep(r.pause)
+		end = min(len(r.data), (r.piece+1)*size)
+	}
+	n := copy(p, r.data[r.pos:end])
+	r.pos += n
+	return n, nil
+}
+
+// openPTY returns the two ends of a new pseudo-terminal.
+func openPTY() (master, slave *os.File, err error) {
+	master, err = os.OpenFile("/dev/ptmx", os.O_RDWR|syscall.O_NOCTTY, 0)
+	if err != nil {
+		return nil, nil, err
+	}
+	var unlock int32
+	if _, _, e := syscall.Syscall(syscall.SYS_IOCTL, master.Fd(), syscall.TIOCSPTLCK, uintptr(unsafe.Pointer(&unlock))); e != 0 {
+		master.Close()
+		return nil, nil, e
+	}
+	var n uint32
+	if _, _, e := syscall.Syscall(syscall.SYS_IOCTL, master.Fd(), syscall.TIOCGPTN, uintptr(unsafe.Pointer(&n))); e != 0 {
+		master.Close()
+		return nil, nil, e
+	}
+	slave, err = os.OpenFile(fmt.Sprintf("/dev/pts/%d", n), os.O_RDWR|syscall.O_NOCTTY, 0)
+	if err != nil {
+		master.Close()
+		return nil, nil, err
+	}
+	return master, slave, nil
 }
 
 // WorkDir returns the private directory of this test process (removed by the driver).
@@ -74,7 +134,7 @@ func (r Result) ResourceExhausted() bool {
 }
 
 // Inconclusive is true when the result must not be used as a verdict.
-func (r Result) Inconclusive() bool { return r.TimedOut || r.ResourceExhausted() }
+func (r Result) Inconclusive() bool { return r.TimedOut || r.NoTTY || r.ResourceExhausted() }
 
 // Cmd runs binary name (looked up with Bin unless it contains a slash) with args.
 // A run that dies of resource exhaustion is retried (up to 3 times, after a pause).
@@ -108,13 +168,40 @@ func cmdOnce(o Opt, name string, args ...string) Result {
 	}
 	if o.Stdin != nil {
 		c.Stdin = bytes.NewReader(o.Stdin)
+		if o.StdinPieces > 1 {
+			c.Stdin = &slowReader{data: o.Stdin, pieces: o.StdinPieces, pause: o.StdinPause}
+		}
 	}
 	var so, se bytes.Buffer
 	c.Stdout, c.Stderr = &so, &se
+	var drained chan struct{}
+	var master, slave *os.File
+	if o.StderrTTY {
+		var err error
+		master, slave, err = openPTY()
+		if err != nil {
+			return Result{NoTTY: true, Exit: -1, Err: err}
+		}
+		c.Stderr = slave
+		drained = make(chan struct{})
+		go func() {
+			io.Copy(&se, master) // ends with EIO once the last slave descriptor is closed
+			close(drained)
+		}()
+	}
 	c.SysProcAttr = &syscall.SysProcAttr{Setpgid: true}
 	c.Cancel = func() error { return syscall.Kill(-c.Process.Pid, syscall.SIGKILL) }
 	t0 := time.Now()
 	err := c.Run()
+	if master != nil {
+		slave.Close()
+		select {
+		case <-drained:
+		case <-time.After(2 * time.Second):
+		}
+		master.Close()
+		<-drained
+	}
 	r := Result{Stdout: so.Bytes(), Stderr: se.Bytes(), Wall: time.Since(t0), Err: err}
 	if ctx.Err() != nil {
 		r.TimedOut = true
